@@ -406,7 +406,11 @@ func checkScoreFreshness(c *RuleCtx, rule, fnName string) {
 		return true
 	})
 	pens := p.Sites(f, false, "(*peerScore).AddPenalty")
-	if len(scoreVars) == 0 || len(pens) == 0 {
+	// leaving a mesh lowers the score too (the time-in-mesh credit goes, the sticky penalty may be charged). The
+	// entry being handled is judged with the score it arrived with, but the next entry of the same message must not
+	// be: for these sites the search starts at the head of the enclosing loop (the next iteration)
+	leaves := p.Sites(f, false, fnTrPrune)
+	if len(scoreVars) == 0 || len(pens)+len(leaves) == 0 {
 		c.Check(true, rule, f.Name, "score judged is current", f.Decl, "no score local is live across a penalty", "")
 		return
 	}
@@ -480,6 +484,35 @@ func checkScoreFreshness(c *RuleCtx, rule, fnName string) {
 				bad = "`" + obj.Name() + "` read before this penalty is still used at " + p.Pos(stale) + " (no new Score() read in between): a peer whose score the penalty made negative is judged with the old value"
 			}
 			c.Check(stale == nil, rule, f.Name, "score judged after a penalty is current ("+obj.Name()+")"+suffix, cs.Call, why, bad)
+		}
+		for i, cs := range leaves {
+			loops := p.EnclosingLoops(cs.Call)
+			if len(loops) == 0 {
+				continue
+			}
+			loop := loops[0]
+			_, body, _ := g.LoopBlocks(loop)
+			if body == nil {
+				c.Undecided(rule, f.Name, "loop around the mesh removal", cs.Call, "loop body not located")
+				continue
+			}
+			from := Point{body, 0}
+			var stale *ast.Ident
+			for _, u := range uses {
+				if within(u.id, loop) && g.ReachableFrom(from, u.pt, nil, stop) {
+					stale = u.id
+					break
+				}
+			}
+			suffix := ""
+			if i > 0 {
+				suffix = "#" + itoa(i+1)
+			}
+			bad := ""
+			if stale != nil {
+				bad = "`" + obj.Name() + "` is read outside the loop and used at " + p.Pos(stale) + " in every iteration, although an earlier iteration can take the peer out of a mesh (tracer.Prune), which lowers its score: later entries of the same control message are judged with the score the peer had before"
+			}
+			c.Check(stale == nil, rule, f.Name, "score judged after a mesh removal of an earlier entry is current ("+obj.Name()+")"+suffix, cs.Call, "every iteration reads the score before using it", bad)
 		}
 	}
 }
@@ -563,4 +596,63 @@ func checkPruneOnlyMembers(c *RuleCtx, rule string) {
 	if n < 3 {
 		c.Undecided(rule, "tracer.Prune sites", "inventory", nil, "fewer sites than known (Leave, heartbeat, handlePrune)")
 	}
+}
+
+// checkMemoInvalidated: the heartbeat memoises scores for its whole run. A closure of the heartbeat that takes a peer
+// out of a mesh (tracer.Prune) changes that peer's score, so it must drop the memo entry, or the topics handled
+// afterwards are judged with the score the peer had before.
+func checkMemoInvalidated(c *RuleCtx, rule string) {
+	p := c.P
+	hb := c.MustFn(rule, fnHeartbeat)
+	if hb == nil {
+		return
+	}
+	// the memo: the map looked up by the caching score closure
+	var memo types.Object
+	cl := scoreClosures(p, hb)
+	for _, ch := range hb.Children {
+		if !cl["lit:"+ch.Name] && !cl[ch.Name] {
+			continue
+		}
+		ast.Inspect(ch.Body, func(x ast.Node) bool {
+			if ie, ok := x.(*ast.IndexExpr); ok {
+				if id, ok := unparen(ie.X).(*ast.Ident); ok {
+					if _, isMap := ch.Info().TypeOf(id).Underlying().(*types.Map); isMap {
+						memo = ch.Info().Uses[id]
+					}
+				}
+			}
+			return true
+		})
+	}
+	if memo == nil {
+		// no memo: every use reads the scorer directly
+		c.OK(rule, hb.Name, "score memo dropped when the heartbeat prunes a peer", hb.Decl, "the heartbeat does not memoise scores")
+		return
+	}
+	n := 0
+	for _, lit := range p.closuresCalling(hb, fnTrPrune) {
+		n++
+		g := p.Graph(lit)
+		ok, _ := g.MustPass(g.Entry(), PassOpts{}, func(nd ast.Node) bool {
+			for _, d := range p.mapDeletes(lit) {
+				if id, isId := unparen(d.Map).(*ast.Ident); isId && lit.Info().Uses[id] == memo && contains(nd, d.Call) && isParam0(lit, p.R(lit).Val(d.Key)) {
+					return true
+				}
+			}
+			return false
+		})
+		c.Check(ok, rule, hb.Name, "score memo dropped when the heartbeat prunes a peer", lit.Lit, "the pruning closure deletes the peer's memo entry", "the heartbeat caches every peer's score for its whole run, but pruning a peer from one topic lowers its score (time-in-mesh credit lost, sticky penalty): the topics handled afterwards keep or even GRAFT the peer on the strength of the cached value although its score is now negative")
+	}
+	if n == 0 {
+		c.Undecided(rule, hb.Name, "pruning closure", hb.Decl, "no closure of the heartbeat calls tracer.Prune")
+	}
+}
+
+// isParam0: the value is the first parameter of the function literal.
+func isParam0(lit *Func, v *V) bool {
+	if v == nil || v.Kind != "var" || lit.Type == nil || lit.Type.Params == nil || len(lit.Type.Params.List) == 0 || len(lit.Type.Params.List[0].Names) == 0 {
+		return false
+	}
+	return lit.Info().Defs[lit.Type.Params.List[0].Names[0]] == v.Obj
 }
